@@ -90,6 +90,11 @@ impl Vm {
             if let "quote" | "define-syntax" = proc.as_str() {
                 return Ok(expr.clone());
             }
+            // Only the unquoted parts of a quasiquote template are expressions
+            if proc == "quasiquote" && rest.is_pair() && rest.cdr().unwrap().is_nil() {
+                let template = self.transform_quasiquote(rest.car().unwrap(), 0)?;
+                return Ok(Cell::new_list(vec![Cell::new_symbol("quasiquote"), template]));
+            }
         }
 
         if let Some(sym) = self.heap.get_sym_ref(proc) {
@@ -114,6 +119,43 @@ impl Vm {
         } else {
             let rest = self.transform(rest)?;
             Ok(Cell::new_improper_list(v, rest))
+        }
+    }
+
+    /// Transform Quasiquote
+    ///
+    /// Apply pre-compilation transforms to the expressions a quasiquote template
+    /// unquotes at the outermost level, leaving the quoted parts of the template
+    /// (which are data, whatever they look like) untouched.
+    fn transform_quasiquote(&mut self, template: &Cell, depth: usize) -> Result<Cell, Error> {
+        match template {
+            Cell::Pair(car, cdr) => {
+                let is_form = cdr.is_pair() && cdr.cdr().unwrap().is_nil();
+                if is_form && car.is_unquote() {
+                    let expr = cdr.car().unwrap();
+                    let expr = match depth {
+                        0 => self.transform(expr)?,
+                        _ => self.transform_quasiquote(expr, depth - 1)?,
+                    };
+                    Ok(Cell::new_list(vec![Cell::new_symbol("unquote"), expr]))
+                } else if is_form && car.is_quasiquote() {
+                    let expr = self.transform_quasiquote(cdr.car().unwrap(), depth + 1)?;
+                    Ok(Cell::new_list(vec![Cell::new_symbol("quasiquote"), expr]))
+                } else {
+                    Ok(Cell::new_pair(
+                        self.transform_quasiquote(car, depth)?,
+                        self.transform_quasiquote(cdr, depth)?,
+                    ))
+                }
+            }
+            Cell::Vector(vector) => {
+                let mut transformed = Vec::with_capacity(vector.len());
+                for it in vector {
+                    transformed.push(self.transform_quasiquote(it, depth)?);
+                }
+                Ok(Cell::Vector(transformed))
+            }
+            cell => Ok(cell.clone()),
         }
     }
 
